@@ -856,9 +856,9 @@ theorem ev_acquire {s : State} (h : Inv s) (k : Nat) (he : (Ev.acquire k).enable
 
 /-- `Ev.resume i` of a task suspended at `await fut` of `acquire(k)` is the rest of the coroutine:
     resumed by the future's result when no exception is pending, by an exception otherwise.
-    (`hno`: a task does not wait for a lock it holds - excluded by the guard of `Ev.acquire`.) -/
+    (That the task does not hold the lock it waits for is `Inv.waitNotOwn`.) -/
 theorem ev_resume_acquire {s : State} (h : Inv s) (i k : Nat) (he : (Ev.resume i).enabled s = true)
-    (hp : (s.tasks i).pos = .acq k) (hno : (s.locks k).owner ≠ some i) :
+    (hp : (s.tasks i).pos = .acq k) :
     (resumeExc (s.tasks i) = false →
       ∃ R, Gen.lockAcquireResumeValue (noteOwned (kernelResume s i) i k) k (isPrio s i) k i i i = .ok R ∧
         leaveAcquire R i = s.apply (.resume i)) ∧
@@ -866,6 +866,8 @@ theorem ev_resume_acquire {s : State} (h : Inv s) (i k : Nat) (he : (Ev.resume i
       ∃ R, Gen.lockAcquireResumeThrow (kernelResume s i) k (isPrio s i) k i i i = .ok R ∧
         leaveAcquire R i = s.apply (.resume i)) := by
   have hw := waitingOn_of_inv h i k hp
+  have hno : (s.locks k).owner ≠ some i :=
+    fun e => h.waitNotOwn i k hp (((h.linv k).ownerOwns i).mp e)
   constructor
   · intro hx
     simp only [State.apply, doResume_acq_noexc s i k hp hx]
@@ -895,5 +897,21 @@ theorem ev_resume_acquire {s : State} (h : Inv s) (i k : Nat) (he : (Ev.resume i
   · intro hx
     simp only [State.apply, doResume_acq_exc s i k hp hx]
     exact acquireResumeThrow_eq s (Inv.plain h) i k hno hw
+
+end Asynkit.GenEqLock
+
+namespace Asynkit.GenEqLock
+open Asynkit Asynkit.Lock
+
+/-- ... hence in every reachable state, without side condition -/
+theorem reachable_resume_acquire {s : State} (hr : Reachable s) (i k : Nat)
+    (he : (Ev.resume i).enabled s = true) (hp : (s.tasks i).pos = .acq k) :
+    (resumeExc (s.tasks i) = false →
+      ∃ R, Gen.lockAcquireResumeValue (noteOwned (kernelResume s i) i k) k (isPrio s i) k i i i = .ok R ∧
+        leaveAcquire R i = s.apply (.resume i)) ∧
+    (resumeExc (s.tasks i) = true →
+      ∃ R, Gen.lockAcquireResumeThrow (kernelResume s i) k (isPrio s i) k i i i = .ok R ∧
+        leaveAcquire R i = s.apply (.resume i)) :=
+  ev_resume_acquire (reachable_inv hr) i k he hp
 
 end Asynkit.GenEqLock
